@@ -24,6 +24,11 @@ Section Permeance.
   Definition mk_permeance (v : num N) (u : Units) : Permeance :=
     {| pval := if leb N #0 v then v else #0; punits := u |}.
 
+  (* the same constructor in monadic form: the clamp test is evaluated even when the object is
+     discarded afterwards (look-ahead element of the process loops) *)
+  Definition mk_permeance_m (v : num N) (u : Units) : res Permeance :=
+    if leb N #0 v then Ok {| pval := v; punits := u |} else Ok {| pval := #0; punits := u |}.
+
   Definition perm_add (a b : Permeance) : res Permeance :=
     if units_eqb (punits a) (punits b)
     then Ok (mk_permeance (pval a +! pval b) (punits a))
